@@ -10,6 +10,7 @@ from __future__ import annotations
 import numpy as np
 
 from .. import games, gm
+from .. import prelude
 from ..core import Sim
 
 LEVEL = "exploration"
@@ -84,11 +85,14 @@ def run(sim: Sim) -> None:
             p.cached.reset_minimal(extra)
         pairs.append(p)
     sim.config.update(sizes=sizes)
+    prelude.warm_process(sim)
     budget = {2: 6, 3: 14, 4: 12, 5: 8, 6: 5, 7: 3, 8: 2}
     steps = sum(budget[p.n] for p in pairs)
     steps = 6 + sim.choose(min(steps, 44), "steps")
     last_pair = -1
     for _ in range(steps):
+        if sim.flip(1, 16, "other-use"):
+            prelude.warm_process(sim, label="midrun")
         pi = sim.choose(len(pairs), "which-pair")
         p = pairs[pi]
         if last_pair >= 0 and pairs[last_pair].n != p.n:
